@@ -9,9 +9,26 @@
 package codegen
 
 import (
+	"strconv"
+
 	"github.com/HobbyOSs/gosk/pkg/cpu"
 	"github.com/HobbyOSs/gosk/pkg/ng_operand"
+	"github.com/HobbyOSs/gosk/pkg/ocode"
 )
+
+// Ghost helpers. govc interprets forall/exists as SMT quantifiers over a 64-bit
+// index and old(e) as "e evaluated in the entry state"; the bodies below are what
+// the replay harness executes.
+func forall(lo, hi int, p func(k int) bool) bool {
+	for k := lo; k < hi; k++ {
+		if !p(k) {
+			return false
+		}
+	}
+	return true
+}
+
+func old[T any](x T) T { return x }
 
 // ---------------------------------------------------------------------------
 // Register universe (the RegisterName alternatives of operand_grammar.peg)
@@ -334,6 +351,167 @@ func specEAOK(mem *ng_operand.MemoryInfo, mode int, modrm, sib byte, disp []byte
 // specMode is the numeric value of a bit mode.
 func specMode(m cpu.BitMode) int { return int(m) }
 
+// ---------------------------------------------------------------------------
+// Relative branches (SDM Vol. 2: JMP, Jcc, CALL; appendix B.1.4.7 condition codes)
+// ---------------------------------------------------------------------------
+
+// specCC is the tttn condition code of a conditional-jump kind, -1 for other kinds.
+func specCC(k ocode.OcodeKind) int {
+	switch k {
+	case ocode.OpJO:
+		return 0x0
+	case ocode.OpJNO:
+		return 0x1
+	case ocode.OpJB, ocode.OpJC, ocode.OpJNAE:
+		return 0x2
+	case ocode.OpJAE, ocode.OpJNB, ocode.OpJNC:
+		return 0x3
+	case ocode.OpJE, ocode.OpJZ:
+		return 0x4
+	case ocode.OpJNE, ocode.OpJNZ:
+		return 0x5
+	case ocode.OpJBE, ocode.OpJNA:
+		return 0x6
+	case ocode.OpJA, ocode.OpJNBE:
+		return 0x7
+	case ocode.OpJS:
+		return 0x8
+	case ocode.OpJNS:
+		return 0x9
+	case ocode.OpJP, ocode.OpJPE:
+		return 0xA
+	case ocode.OpJNP, ocode.OpJPO:
+		return 0xB
+	case ocode.OpJL, ocode.OpJNGE:
+		return 0xC
+	case ocode.OpJGE, ocode.OpJNL:
+		return 0xD
+	case ocode.OpJLE, ocode.OpJNG:
+		return 0xE
+	case ocode.OpJG, ocode.OpJNLE:
+		return 0xF
+	}
+	return -1
+}
+
+// specBranchClass: 1 = JMP, 2 = CALL, 3 = conditional jump, 4 = far JMP, 0 = none.
+func specBranchClass(k ocode.OcodeKind) int {
+	switch {
+	case k == ocode.OpJMP:
+		return 1
+	case k == ocode.OpCALL:
+		return 2
+	case specCC(k) >= 0:
+		return 3
+	case k == ocode.OpJMP_FAR:
+		return 4
+	}
+	return 0
+}
+
+// specBranchOK: b is exactly one relative branch instruction of the given class
+// that, executed at address cur in the given mode, transfers control to dest.
+//   n    = total length including prefixes
+//   d    = the sign-extended displacement field
+//   dest = cur + n + d as integers: a displacement that does not fit its field can
+//          never satisfy this, so nothing is silently truncated or wrapped.
+// With a 16-bit operand size in 32-bit mode EIP is truncated to 16 bits, so such a
+// form only reaches destinations below 64K. cc is the required condition (class 3).
+func specBranchOK(mode int, b []byte, class int, cc int, cur, dest int64) bool {
+	p := 0
+	osz := mode
+	if len(b) > 0 && b[0] == 0x66 {
+		p = 1
+		osz = 48 - mode
+	}
+	if len(b) < p+2 {
+		return false
+	}
+	op := b[p]
+	n := 0
+	var d int64
+	k := 0
+	c := -1
+	switch {
+	case op == 0xEB:
+		k, n, d = 1, p+2, int64(int8(b[p+1]))
+	case op >= 0x70 && op <= 0x7F:
+		k, n, d, c = 3, p+2, int64(int8(b[p+1])), int(op-0x70)
+	case op == 0xE9 || op == 0xE8:
+		k = 1
+		if op == 0xE8 {
+			k = 2
+		}
+		if osz == 16 {
+			n = p + 3
+			if len(b) < n {
+				return false
+			}
+			d = int64(int16(uint16(b[p+1]) | uint16(b[p+2])<<8))
+		} else {
+			n = p + 5
+			if len(b) < n {
+				return false
+			}
+			d = int64(int32(uint32(b[p+1]) | uint32(b[p+2])<<8 | uint32(b[p+3])<<16 | uint32(b[p+4])<<24))
+		}
+	case op == 0x0F:
+		op2 := b[p+1]
+		if op2 < 0x80 || op2 > 0x8F {
+			return false
+		}
+		k, c = 3, int(op2-0x80)
+		if osz == 16 {
+			n = p + 4
+			if len(b) < n {
+				return false
+			}
+			d = int64(int16(uint16(b[p+2]) | uint16(b[p+3])<<8))
+		} else {
+			n = p + 6
+			if len(b) < n {
+				return false
+			}
+			d = int64(int32(uint32(b[p+2]) | uint32(b[p+3])<<8 | uint32(b[p+4])<<16 | uint32(b[p+5])<<24))
+		}
+	default:
+		return false
+	}
+	if n != len(b) || k != class {
+		return false
+	}
+	if class == 3 && c != cc {
+		return false
+	}
+	if mode == 32 && osz == 16 && (dest < 0 || dest > 0xFFFF) {
+		return false
+	}
+	return d == dest-cur-int64(n)
+}
+
+// specFarJmpShape: EA ptr16:32 (7 bytes), with the operand-size prefix in 16-bit mode.
+func specFarJmpShape(mode int, b []byte) bool {
+	if mode == 16 {
+		return len(b) == 8 && b[0] == 0x66 && b[1] == 0xEA
+	}
+	return len(b) == 7 && b[0] == 0xEA
+}
+
+// specCur: the address of the instruction being generated.
+func specCur(params x86genParams, ctx *CodeGenContext) int64 {
+	return int64(ctx.DollarPosition) + int64(params.MachineCodeLen)
+}
+
+// specDest: the numeric branch target handed over by pass 2 (first operand).
+func specDest(params x86genParams) int64 {
+	v, _ := strconv.ParseInt(params.OCode.Operands[0], 0, 64)
+	return v
+}
+
+func specBytesEq(a, b []byte) bool {
+	return len(a) == len(b) && forall(0, len(a), func(k int) bool { return a[k] == b[k] })
+}
+
 //@ func getOffsetSize
 //@ props C04 C03
 //@ ensures[one]  (result0 == 1) == (-128 <= imm && imm <= 127)
@@ -348,4 +526,19 @@ func specMode(m cpu.BitMode) int { return int(m) }
 //@ ensures[reg] err == nil ==> modrmByte&0x38 == regBits
 //@ ensures[ea]  err == nil ==> specEAOK(mem, specMode(bitMode), modrmByte, sibByte, dispBytes)
 
+//@ func handleJcc
+//@ props C04 C16
+//@ requires ctx != nil && (ctx.BitMode == cpu.MODE_16BIT || ctx.BitMode == cpu.MODE_32BIT)
+//@ requires specBranchClass(params.OCode.Kind) == 1 || specBranchClass(params.OCode.Kind) == 3 || specBranchClass(params.OCode.Kind) == 4
+//@ requires ctx.DollarPosition <= 0xFFFFFFFF && 0 <= params.MachineCodeLen && params.MachineCodeLen <= 0x7FFFFFFF
+//@ ensures[target.jmp16] result1 == nil && params.OCode.Kind == ocode.OpJMP && ctx.BitMode == cpu.MODE_16BIT ==> specBranchOK(16, result0, 1, -1, specCur(params, ctx), specDest(params))
+//@ ensures[target.jmp32] result1 == nil && params.OCode.Kind == ocode.OpJMP && ctx.BitMode == cpu.MODE_32BIT ==> specBranchOK(32, result0, 1, -1, specCur(params, ctx), specDest(params))
+//@ ensures[target.jcc16] result1 == nil && specCC(params.OCode.Kind) >= 0 && ctx.BitMode == cpu.MODE_16BIT ==> specBranchOK(16, result0, 3, specCC(params.OCode.Kind), specCur(params, ctx), specDest(params))
+//@ ensures[target.jcc32] result1 == nil && specCC(params.OCode.Kind) >= 0 && ctx.BitMode == cpu.MODE_32BIT ==> specBranchOK(32, result0, 3, specCC(params.OCode.Kind), specCur(params, ctx), specDest(params))
+//@ ensures[far]    result1 == nil && params.OCode.Kind == ocode.OpJMP_FAR ==> specFarJmpShape(specMode(ctx.BitMode), result0)
 
+//@ func handleCALL
+//@ props C04 C16
+//@ requires ctx != nil && (ctx.BitMode == cpu.MODE_16BIT || ctx.BitMode == cpu.MODE_32BIT)
+//@ requires ctx.DollarPosition <= 0xFFFFFFFF && 0 <= params.MachineCodeLen && params.MachineCodeLen <= 0x7FFFFFFF
+//@ ensures[target] result1 == nil ==> specBranchOK(specMode(ctx.BitMode), result0, 2, -1, specCur(params, ctx), specDest(params))
